@@ -2,6 +2,20 @@
 use super::*;
 use std::mem::ManuallyDrop;
 
+/// Stubs for `<Meta as Clone>::clone` / `<String as Clone>::clone`: decoding a *well-formed*
+/// directive never copies its arguments (copies are made only to build error values for
+/// malformed ones). The derived clones, run on values whose discriminant / length CBMC reads back
+/// from the heap, allocate copies of symbolic size on paths that are infeasible here, which CBMC's
+/// array post-processing does not survive. The stubs turn "never cloned" into a checked
+/// assertion instead of assuming it.
+fn meta_never_cloned(_: &Meta) -> Meta {
+    panic!("harness invariant: a well-formed directive is decoded without copying its arguments")
+}
+
+fn string_never_cloned(_: &String) -> String {
+    panic!("harness invariant: a well-formed directive is decoded without copying option names")
+}
+
 fn call1(callee: &str, value: Meta) -> Meta {
     Meta::Apply { callee: callee.to_owned(), args: vec![value] }
 }
@@ -13,9 +27,12 @@ fn call1(callee: &str, value: Meta) -> Meta {
 //@ sym: `@[format(width(w), indent(i))]` with w, i: any i64 (incl. 0, negatives, i64::MIN, i64::MAX)
 //@ oracle: decoding never panics; Ok exactly when both numbers are >= 1, and then the decoded width / indentation equal the numbers; otherwise the matching WidthOutOfRange / IndentOutOfRange error carrying the offending number
 //@ bounds: all i64 values; directive shape fixed; unwind 12
+//@ stubs: <Meta as Clone>::clone and <String as Clone>::clone -> checked panic (a well-formed directive is decoded without copying its arguments)
 //@ replay: playback
 #[kani::proof]
 #[kani::unwind(12)]
+#[kani::stub(<Meta as std::clone::Clone>::clone, meta_never_cloned)]
+#[kani::stub(<std::string::String as std::clone::Clone>::clone, string_never_cloned)]
 fn c10_k4_format_width_indent_total() {
     let w: i64 = kani::any();
     let i: i64 = kani::any();
@@ -39,54 +56,51 @@ fn c10_k4_format_width_indent_total() {
 //@ property: C10
 //@ tier: quick
 //@ encodes: <MonadicMeta|LiteralMeta|IntrinsicMeta|BuiltinMeta as SpecializeMeta>::from_arguments (argument-count and argument-kind arms)
-//@ sym: argument list of 0..=2 entries, each an Integer with a symbolic value or a String; directive kind symbolic
+//@ sym: argument list of one of 5 shapes ([], [Integer], [String], [Integer, Integer], [String, Integer]; constant call sites chosen by the solver) with a symbolic integer value; all four directives decoded on each
 //@ oracle: never panics; monadic/literal accept exactly the empty list and report the count otherwise; intrinsic/builtin reject non-identifier roles and wrong arities with the matching error
 //@ bounds: <= 2 arguments, kinds {Integer, String}; unwind 6
+//@ stubs: as c10_k4_format_width_indent_total (the error values built here carry counts only)
 //@ replay: playback
+/// All four argument-less / role directives on one argument list of concrete shape.
+fn check_role_directives(arguments: Vec<Meta>, n: usize) {
+    let arguments = ManuallyDrop::new(arguments);
+    let r = ManuallyDrop::new(MonadicMeta::from_arguments(&arguments));
+    match &*r {
+        | Ok(_) => assert!(n == 0, "monadic takes no arguments"),
+        | Err(MonadicMetaError::Arguments { found }) => assert!(n != 0 && *found == n, "error reports the count"),
+    }
+    let r = ManuallyDrop::new(LiteralMeta::from_arguments(&arguments));
+    match &*r {
+        | Ok(_) => assert!(n == 0, "literal takes no arguments"),
+        | Err(LiteralMetaError::Arguments { found }) => assert!(n != 0 && *found == n, "error reports the count"),
+    }
+    let r = ManuallyDrop::new(IntrinsicMeta::from_arguments(&arguments));
+    match &*r {
+        | Err(IntrinsicMetaError::RoleNotIdentifier) => assert!(n == 1),
+        | Err(IntrinsicMetaError::RoleArity { found }) => assert!(n != 1 && *found == n),
+        | _ => assert!(false, "non-identifier arguments can never name an intrinsic role"),
+    }
+    let r = ManuallyDrop::new(BuiltinMeta::from_arguments(&arguments));
+    match &*r {
+        | Err(BuiltinMetaError::RoleNotIdentifier) => assert!(n == 1),
+        | Err(BuiltinMetaError::RoleArity { found }) => assert!(n != 1 && *found == n),
+        | _ => assert!(false, "non-identifier arguments can never name a builtin role"),
+    }
+}
+
 #[kani::proof]
 #[kani::unwind(6)]
+#[kani::stub(<Meta as std::clone::Clone>::clone, meta_never_cloned)]
+#[kani::stub(<std::string::String as std::clone::Clone>::clone, string_never_cloned)]
 fn c10_k4_role_directives_total() {
-    let n: u8 = kani::any();
-    kani::assume(n <= 2);
     let v: i64 = kani::any();
-    let first = if kani::any() { Meta::Integer(v) } else { Meta::String(String::new()) };
-    let arguments = ManuallyDrop::new(match n {
-        | 0 => vec![],
-        | 1 => vec![first],
-        | _ => vec![first, Meta::Integer(v)],
-    });
-    let n = n as usize;
-    let which: u8 = kani::any();
-    match which {
-        | 0 => {
-            let r = ManuallyDrop::new(MonadicMeta::from_arguments(&arguments));
-            match &*r {
-                | Ok(_) => assert!(n == 0, "monadic takes no arguments"),
-                | Err(MonadicMetaError::Arguments { found }) => assert!(n != 0 && *found == n, "error reports the count"),
-            }
-        }
-        | 1 => {
-            let r = ManuallyDrop::new(LiteralMeta::from_arguments(&arguments));
-            match &*r {
-                | Ok(_) => assert!(n == 0, "literal takes no arguments"),
-                | Err(LiteralMetaError::Arguments { found }) => assert!(n != 0 && *found == n, "error reports the count"),
-            }
-        }
-        | 2 => {
-            let r = ManuallyDrop::new(IntrinsicMeta::from_arguments(&arguments));
-            match &*r {
-                | Err(IntrinsicMetaError::RoleNotIdentifier) => assert!(n == 1),
-                | Err(IntrinsicMetaError::RoleArity { found }) => assert!(n != 1 && *found == n),
-                | _ => assert!(false, "non-identifier arguments can never name an intrinsic role"),
-            }
-        }
-        | _ => {
-            let r = ManuallyDrop::new(BuiltinMeta::from_arguments(&arguments));
-            match &*r {
-                | Err(BuiltinMetaError::RoleNotIdentifier) => assert!(n == 1),
-                | Err(BuiltinMetaError::RoleArity { found }) => assert!(n != 1 && *found == n),
-                | _ => assert!(false, "non-identifier arguments can never name a builtin role"),
-            }
-        }
+    // one constant call site per argument-list shape (the solver picks the arm)
+    let shape: u8 = kani::any();
+    match shape {
+        | 0 => check_role_directives(vec![], 0),
+        | 1 => check_role_directives(vec![Meta::Integer(v)], 1),
+        | 2 => check_role_directives(vec![Meta::String(String::new())], 1),
+        | 3 => check_role_directives(vec![Meta::Integer(v), Meta::Integer(v)], 2),
+        | _ => check_role_directives(vec![Meta::String(String::new()), Meta::Integer(v)], 2),
     }
 }
